@@ -1,5 +1,8 @@
 #!/bin/bash
-# offline setup: nothing to download; warm the Verus start-up cache
+# Offline setup: nothing is downloaded. Warms the verifier start-up cache and the Kani / replay build
+# directories (under /verif/cache) by running every check once; results are cached by content hash, so a
+# later check on a changed /repo only re-verifies what changed. Failures here are not fatal: each check
+# rebuilds what it needs by itself.
 cd "$(dirname "$0")"
 mkdir -p build cache evidence/replay
 cat > build/_warm.rs <<'RS'
@@ -8,4 +11,8 @@ verus! { fn f(x: u8) -> (r: u8) ensures r == x { x } }
 fn main() {}
 RS
 verus build/_warm.rs >/dev/null 2>&1 || true
+for p in $(python3 -c "import sys; sys.path.insert(0,'.'); from vlib.props import PROPS; print(' '.join(sorted(PROPS)))"); do
+  VERIF_EVIDENCE_DIR=/verif/cache/setup-evidence ./check $p --tier quick >/dev/null 2>&1 || true
+done
+rm -rf /verif/cache/setup-evidence
 exit 0
